@@ -274,6 +274,8 @@ def run_shard(spec):
     geom3.install()
     from vlib.props import c05, c09, c16, c07
     c05.install(); c09.install(); c16.install(); c07.install()
+    from vlib import geom4
+    geom4.install(max_n=13)   # small rotation grids are also judged by the C04 monitors (cross-cutting)
     FullGrid = install()
     if spec.get("kind") == "workflow_files":
         return run_workflow_files(spec)
